@@ -66,6 +66,8 @@ inline int RunOne(const char* id, const Opts& opts, Monitor& mon, const std::str
     E.set("transitions_executed_incl_reexpansions" + tag, sim.executed_transitions);
     E.set_str("event_classes" + tag, Join(opts.classes));
     E.set_str("limits" + tag, "max_size_bytes=" + std::to_string(opts.max_size_bytes) + " cluster_count=" + std::to_string(opts.cluster_count) + " cluster_size_vbytes=" + std::to_string(opts.cluster_size_vbytes) + " prefill=" + std::to_string(opts.prefill) + " require_standard=" + std::to_string(opts.require_standard));
+    // sanity gates ("this outcome class never happened") only make sense for a search that was not cut by the deadline
+    if (vx::deadline_reached()) { E.assume("sanity gates on outcome classes skipped: the search was cut by the deadline"); return 0; }
     int g = mon.gate(sim);
     return g;
 }
